@@ -140,6 +140,21 @@ def src(node: ast.AST) -> str:
         return ast.dump(node)
 
 
+
+def resolve_name(fn: ast.AST, node: ast.AST, depth: int = 0) -> ast.AST:
+    """A Name that is bound exactly once in fn, by a plain assignment, stands for the assigned expression
+    (temporaries such as `ret = (a, b); return ret`); anything else is returned unchanged."""
+    if not isinstance(node, ast.Name) or depth > 3:
+        return node
+    stores = [n for n in ast.walk(fn) if isinstance(n, ast.Name) and isinstance(n.ctx, ast.Store) and n.id == node.id]
+    if len(stores) != 1:
+        return node
+    par = getattr(stores[0], "_parent", None)
+    if isinstance(par, ast.Assign) and len(par.targets) == 1 and par.targets[0] is stores[0]:
+        return resolve_name(fn, par.value, depth + 1)
+    return node
+
+
 def norm(text: str, limit: int = 160) -> str:
     t = re.sub(r"\s+", " ", text).strip()
     return t if len(t) <= limit else t[: limit - 3] + "..."
